@@ -848,7 +848,7 @@ def run_case(ctx, c, reqs, pending, paths=('memory', 'eager', 'lazy'), light=Fal
     if 'lazy' in paths and c['ts'] not in NATIVE and coin[3] < 0.5:
         # the same encoded frames behind the other offset-table forms of an encapsulated PixelData element: an empty basic
         # offset table, and an extended offset table (the constructor writes a filled basic offset table)
-        paths = tuple(paths) + ('empty-bot', 'extended-ot')
+        paths = tuple(paths) + ('empty-bot', 'extended-ot', 'fragmented-bot')
     for path in paths:
         try:
             if path == 'memory':
@@ -870,13 +870,21 @@ def run_case(ctx, c, reqs, pending, paths=('memory', 'eager', 'lazy'), light=Fal
                 o2 = hd.seg.segread(io.BytesIO(blob))
                 _ = o2.pixel_array
                 objs[path] = o2
-            elif blob is not None and path in ('empty-bot', 'extended-ot'):
-                from pydicom.encaps import encapsulate, encapsulate_extended, generate_frames
+            elif blob is not None and path in ('empty-bot', 'extended-ot', 'fragmented-bot'):
+                from pydicom.encaps import encapsulate, generate_frames
                 d3 = pydicom.dcmread(io.BytesIO(blob))
                 enc_frames = list(generate_frames(d3.PixelData, number_of_frames=int(d3.NumberOfFrames)))
+                # frames spread over 1-3 fragments (a filled basic or an extended offset table then has to be followed to
+                # the first fragment of a frame, and a frame is the concatenation of its fragments)
+                nfrag = int(np.random.default_rng([c['read_perm_seed'], len(path), 5]).integers(1, 4))
+                nfrag = min(nfrag, max(1, min(len(f_) for f_ in enc_frames) // 2))
+                ctx.hist('fragments_per_frame', f'{path}/{nfrag if path == "fragmented-bot" else 1}')
                 if path == 'empty-bot':
                     d3.PixelData = encapsulate(enc_frames, has_bot=False)
-                else:
+                elif path == 'fragmented-bot':
+                    d3.PixelData = encapsulate(enc_frames, fragments_per_frame=nfrag, has_bot=True)
+                else:       # (with an extended offset table a frame is one fragment: PS3.5 A.4)
+                    from pydicom.encaps import encapsulate_extended
                     d3.PixelData, d3.ExtendedOffsetTable, d3.ExtendedOffsetTableLengths = encapsulate_extended(enc_frames)
                 b3 = io.BytesIO()
                 d3.save_as(b3)
